@@ -76,6 +76,10 @@ func startProxy(bin string, c *fakecql.Cluster, ip string, maxVersion string) (*
 	p := &proxyProc{stderr: &bytes.Buffer{}, done: make(chan struct{}), addr: addr}
 	p.cmd = exec.Command(bin, "--contact-points", ip, "--port", fmt.Sprint(c.Port), "--bind", addr,
 		"--max-protocol-version", maxVersion, "--heartbeat-interval", hostileHeartbeat, "--idle-timeout", hostileIdle, "--connect-timeout", "2s")
+	if maxVersion == "v3" {
+		// the default version to connect with (v4) must not be above the maximum
+		p.cmd.Args = append(p.cmd.Args, "--protocol-version", "v3")
+	}
 	p.cmd.Stderr = &lockedWriter{w: p.stderr, mu: &p.mu}
 	p.cmd.Stdout = io.Discard
 	if err := p.cmd.Start(); err != nil {
